@@ -29,7 +29,8 @@ def check_T1(ctx, facts):
     ctx.ob('C04.T1', 'single-u64-field', ok, '%s:%s' % (adt['span']['f'], adt['span']['l']),
            'HLCTimestamp has fields %s' % [(f['name'], f['ty']) for f in fields])
     for tr in ('core::cmp::PartialOrd', 'core::cmp::Ord', 'core::cmp::PartialEq', 'core::cmp::Eq'):
-        ims = [im for im in facts.impls if im['self'] == TS and im.get('trait_def') and strip_generics(im['trait_def']) == tr]
+        ims = [im for im in facts.impls if im['self'] == TS and im.get('trait_def') and strip_generics(im['trait_def']) == tr
+               and ('<' not in im['trait'] or im['trait'].endswith('<' + TS + '>'))]
         ok = len(ims) == 1 and ims[0]['derived']
         ctx.ob('C04.T1', 'derived|' + tr, ok, '',
                '%s for HLCTimestamp is %s' % (tr, 'derived (field order of the single word)' if ok else
@@ -45,11 +46,9 @@ def check_R(ctx, facts):
             continue
         names = {v: k for k, v in body.local_names().items()}
         # the flag: the bool local returned on every path (copied into _0)
-        flag = None
-        for b, s in return_value_blocks(body):
-            rv = s.get('rv')
-            if rv and rv['k'] == 'use' and op_local(rv['op']) is not None:
-                flag = op_local(rv['op'])
+        import analysis as _an
+        cands = [l for l in _an._return_locals(body) if l != 0 and body.local_ty(l) == 'bool' and l in body.local_names()]
+        flag = cands[0] if len(cands) == 1 else None
         if flag is None:
             ctx.bad('C04.R', name + '|flag', site(body), 'returned flag local not found (unrecognised idiom, fail closed)')
             continue
